@@ -171,6 +171,9 @@ pub fn install_panic_flag() {
 }
 
 pub fn kv(line: &str) -> std::collections::HashMap<String, String> {
+    // every driver parses one input line per scenario with this function: (re)arm a process-wide alarm, so that a main thread that
+    // is stuck for good (a deadlock the scenario's own watchdogs cannot break) ends the process instead of outlasting the caller
+    unsafe { libc::alarm(300) };
     let mut m = std::collections::HashMap::new();
     for tok in line.split_whitespace() {
         if let Some((k, v)) = tok.split_once('=') {
